@@ -3,9 +3,9 @@
    Model: Algo/FullLN.v (full_ln = full_ln_sorted after the stable sort; full_ln_sorted is everything after the
    sort, for an arbitrary frame s).  Specification: Algo/FullLNSpec.v (Spec, written from the property text).
    Domain: wf_chart (one m.hits that is a HitList, one m.holds that is a HoldList, hits without and holds with a
-   length), gap >= 0 where stated.  Guard excluding the defect class of the pinned tree:
-     no_extra : no OTHER list of the chart is a non-empty HitList/HoldList instance (StepMania mines, rolls, ...).
-   Without the guard the statements are false of the faithful model: see the *_refuted theorems. *)
+   length), gap >= 0 where stated.  Whatever other lists the chart has (StepMania mines, rolls, ...) - no guard:
+   since commit 2c338d8 of the tree under test only m.hits and m.holds are stacked.  The old stacking by type is
+   kept as a clearly named variant (full_ln_old_by_type) only to state what was wrong with it. *)
 From Coq Require Import ZArith List Bool Permutation Sorted.
 From RV Require Import Algo.FullLN Algo.FullLNSpec Proofs.FullLNProofs.
 From RV Require Corr.RunC17.
@@ -16,14 +16,14 @@ Open Scope Z_scope.
    one output per input note at the same time and column, every note but the last of its column filled by the
    gap/threshold rule, the last kept with kind and length, tempo and other lists unchanged. *)
 Theorem C17_full_ln_spec : forall m s gap thr m',
-  wf_chart m = true -> no_extra m = true ->
+  wf_chart m = true ->
   Permutation s (stacked m) -> SortedOff s ->
   full_ln_sorted m s gap thr = Some m' -> Spec m gap thr m'.
 Proof. exact full_ln_sorted_spec. Qed.
 
 (* ... in particular for the model's own stable sort *)
 Theorem C17_full_ln_spec_stable : forall m gap thr m',
-  wf_chart m = true -> no_extra m = true -> full_ln m gap thr = Some m' -> Spec m gap thr m'.
+  wf_chart m = true -> full_ln m gap thr = Some m' -> Spec m gap thr m'.
 Proof. exact full_ln_spec. Qed.
 
 (* the operation does not fail *)
@@ -33,19 +33,19 @@ Proof. exact full_ln_sorted_defined. Qed.
 
 (* note count: the multiset of (column, time) is preserved *)
 Theorem C17_full_ln_count : forall m s gap thr m',
-  wf_chart m = true -> no_extra m = true -> Permutation s (stacked m) -> SortedOff s ->
+  wf_chart m = true -> Permutation s (stacked m) -> SortedOff s ->
   full_ln_sorted m s gap thr = Some m' -> CountKept (chart_notes m) (chart_notes m').
 Proof. exact full_ln_sorted_count. Qed.
 
 (* no hold of the result passes a later note of its column *)
 Theorem C17_full_ln_no_overlap : forall m s gap thr m',
-  wf_chart m = true -> no_extra m = true -> 0 <= gap -> Permutation s (stacked m) -> SortedOff s ->
+  wf_chart m = true -> 0 <= gap -> Permutation s (stacked m) -> SortedOff s ->
   full_ln_sorted m s gap thr = Some m' -> NoOverlap (chart_notes m) (chart_notes m').
 Proof. exact full_ln_sorted_no_overlap. Qed.
 
 (* in every non-empty column some note at the greatest time is in the result unchanged *)
 Theorem C17_full_ln_last_kept : forall m s gap thr m',
-  wf_chart m = true -> no_extra m = true -> Permutation s (stacked m) -> SortedOff s ->
+  wf_chart m = true -> Permutation s (stacked m) -> SortedOff s ->
   full_ln_sorted m s gap thr = Some m' -> LastKept (chart_notes m) (chart_notes m').
 Proof. exact full_ln_sorted_last_kept. Qed.
 
@@ -76,29 +76,31 @@ Proof. exact last_kept_of_spec. Qed.
    multisets of rows for some admissible order of tied notes, other lists and layout equal) transfers the theorem
    to the implementation's output. *)
 Theorem C17_corr_transfers : forall m gap thr out,
-  wf_chart m = true -> no_extra m = true -> RunC17.corr m gap thr out = true -> SpecO m gap thr out.
+  wf_chart m = true -> RunC17.corr m gap thr out = true -> SpecO m gap thr out.
 Proof. exact corr_transfers. Qed.
 
-(* ---- refuted without the guard (defect of the pinned tree; the witness is replayed on the implementation) *)
-Theorem C17_full_ln_count_refuted :
+(* ---- the OLD variant (stacking by type, before the repair) does not conserve the note count: a StepMania chart with
+   one hit and one mine gives 2 notes in hits/holds plus the mine; the current model satisfies the oracle on it *)
+Theorem C17_old_by_type_count_refuted :
   exists m gap thr m', wf_chart m = true /\ 0 <= gap /\ 0 <= thr /\
-    full_ln m gap thr = Some m' /\ ~ CountKept (chart_notes m) (chart_notes m').
-Proof. exact full_ln_count_refuted. Qed.
+    full_ln_old_by_type m gap thr = Some m' /\ ~ CountKept (chart_notes m) (chart_notes m').
+Proof. exact old_by_type_count_refuted. Qed.
 
-Theorem C17_full_ln_spec_refuted :
-  exists m gap thr m', wf_chart m = true /\ 0 <= gap /\ 0 <= thr /\
-    full_ln m gap thr = Some m' /\ ~ Spec m gap thr m'.
-Proof. exact full_ln_spec_refuted. Qed.
+Theorem C17_sm_witness_now_ok :
+  wf_chart sm_witness = true /\ specb sm_witness 150 100 (full_ln sm_witness 150 100) = true.
+Proof. exact sm_witness_now_ok. Qed.
 
 (* ---- non-vacuity: a chart inside the domain on which every branch is taken (hold generated, hit generated,
-   tie at equal time, last hold kept, last hit kept, single-note column, other list carried over) *)
+   tie at equal time, last hold kept, last hit kept, single-note column, other lists - also a HitList subclass - carried over) *)
 Example C17_nonvacuous :
-  let m := [ mkTL SOther CNone [] [7; 8];
+  let m := [ mkTL SOther CHit [mkNote 0 200 None] [9];      (* e.g. StepMania mines: left alone *)
+             mkTL SOther CNone [] [7; 8];
              mkTL SHits CHit [mkNote 0 0 None; mkNote 0 1000 None; mkNote 2 300 None; mkNote 0 400 None] [];
              mkTL SHolds CHold [mkNote 0 400 (Some 50); mkNote 1 0 (Some 10); mkNote 1 700 (Some 2000)] [] ] in
-  wf_chart m = true /\ no_extra m = true /\
+  wf_chart m = true /\
   full_ln m 150 100 =
-    Some [ mkTL SOther CNone [] [7; 8];
+    Some [ mkTL SOther CHit [mkNote 0 200 None] [9];
+           mkTL SOther CNone [] [7; 8];
            mkTL SHits CHit [mkNote 0 400 None; mkNote 0 1000 None; mkNote 2 300 None] [];
            mkTL SHolds CHold [mkNote 0 0 (Some 250); mkNote 0 400 (Some 450); mkNote 1 0 (Some 550);
                                     mkNote 1 700 (Some 2000)] [] ] /\
